@@ -352,6 +352,30 @@ example : ((init f5Case).runSteps f5Steps).live = [0] := by decide +kernel
 open Factory in
 example : C15.capacityOk f5Info ((init f5Case).runSteps f5Steps).env.log = true := by decide +kernel
 
+/-! ### Witness: the limit is lowered below the backlog
+
+The history that exposes a shedding loop that runs only once (`while` → `if`): limit 1 with one
+job queued, `UpdateSettings` lowers the limit to 0, the next job makes the queue two over the
+limit — both are shed, the queue ends at 0 (`limit_oldest` for a prior content above the limit). -/
+open Factory in
+def lowerCase : CaseCfg :=
+  { cfg := { router := .q, prioQueue := true, hasHandler := true, table := [], hasCC := false }, n := 2, disc := some (1, .oldest), rl := none }
+open Factory in
+def lowerSteps : List Step :=
+  [⟨.nop, 0, 2000000, 3000000⟩,
+   ⟨.dispatch 8 0 13646096770106105413 none false, 3000000, 4000000, 5000000⟩,
+   ⟨.dispatch 9 5 15794382300316794652 none false, 5000000, 6000000, 7000000⟩,
+   ⟨.dispatch 10 5 15794382300316794652 none false, 7000000, 8000000, 9000000⟩,
+   ⟨.settings (some (some (0, .oldest))) none, 9000000, 10000000, 11000000⟩,
+   ⟨.dispatch 11 7 7364705619221056123 none false, 11000000, 12000000, 13000000⟩]
+open Factory in
+example : (((init lowerCase).runSteps (lowerSteps.take 5)).queue.map (·.id)) = [10] := by decide +kernel
+open Factory in
+example : ((init lowerCase).runSteps lowerSteps).queue = [] := by decide +kernel
+open Factory in
+example : (((init lowerCase).runSteps lowerSteps).env.log.filterMap fun | .discard r id h => some (r, id, h) | _ => none)
+    = [(.loadshed, 10, some 0), (.loadshed, 11, some 0)] := by decide +kernel
+
 /-! ### Non-vacuity -/
 
 /-- refill 2 every 100 ms, max 5, initially 1; three boundaries crossed at t = 350 ms. -/
